@@ -239,6 +239,7 @@ func c01Codec(c *Ctx, g *GenRR) {
 	if err != nil || off != len(g.Wire) {
 		return
 	}
+	fixedTailChecks(c, "codec", g, rr)
 	rdHex := "-"
 	if len(g.Rdata) > 0 {
 		rdHex = hx(g.Rdata)
